@@ -1162,6 +1162,7 @@ fn run_session(s: &Session) -> Outcome {
         let mut seg: Option<Vec<Rec>> = None;
         let mut last_state = (0usize, 0usize);
         let mut restore_ok = false;
+        let mut signals_off = false;
         let mut restore_words: Option<Vec<u32>> = None;
         for x in recs.iter() {
             match x {
@@ -1173,6 +1174,7 @@ fn run_session(s: &Session) -> Outcome {
                     match *step {
                         "poll" => seg = Some(Vec::new()),
                         "tcsetattr_ok" => restore_ok = true,
+                        "signals_off" => signals_off = true,
                         _ => {}
                     }
                 }
@@ -1194,6 +1196,9 @@ fn run_session(s: &Session) -> Outcome {
         let handed = &received[send_before.min(received.len())..(send_before + accepted).min(received.len())];
         if handed.len() == accepted && accepted <= 60_000 && restore_words.is_some() && (!hung_up) {
             let mut log: Vec<String> = Vec::new();
+            if signals_off {
+                log.push("X".into());
+            }
             if !handed.is_empty() {
                 log.push(format!("W{}", hex(handed)));
             }
